@@ -51,6 +51,9 @@ def qualify(q):
     q = q.replace('> >', '>>').replace('> >', '>>')
     for b in _BARE:
         q = re.sub(r'(?<![\w:])' + b + r'(?![\w])', 'std::' + b, q)
+    q = re.sub(r'(?<![\w:])chrono::', 'std::chrono::', q)
+    for b in ('steady_clock', 'system_clock', 'duration', 'time_point'):
+        q = re.sub(r'(?<![\w:])' + b + r'(?![\w])', 'std::chrono::' + b, q)
     q = q.replace('std::std::', 'std::')
     for a, b in ALIASES:
         q = q.replace(a.replace('> >', '>>'), b)
